@@ -38,6 +38,8 @@ def plan(tier, seed):
     specs.append(dict(name="frontends", mode="interp", what="frontends", seed=seed))
     specs.append(dict(name="initfaults", mode="interp", what="initfaults", seed=seed, n=6 if q else 30))
     for p in range(2 if q else 6):
+        specs.append(dict(name="shortage-%d" % p, mode="interp", what="shortage", part=p, parts=2 if q else 6, Kmax=4 if q else 5))
+    for p in range(2 if q else 6):
         specs.append(dict(name="nodonor-%d" % p, mode="interp", what="nodonor", seed=seed, part=p, n=4))
     if not q:
         for i in range(3):
@@ -286,6 +288,48 @@ def run_initfaults(spec, res):
             res.sample(case)
 
 
+def run_shortage(spec, res):
+    """Component level: every way the donors can run out (no cluster with 2m points, or capacity used up by earlier refills
+    of the same call) must surface as the RuntimeError naming the donor shortage - never as a returned state."""
+    import itertools
+    import random
+    from fast_ticc import cluster_maintenance as cm
+    from ticcmon.checks import c08
+    from ticcmon.oracles import repop
+    idx = 0
+    for m in (1, 2, 3):
+        for K in range(2, spec["Kmax"] + 1):
+            for sizes in itertools.product(range(0, 4 * m + 2), repeat=K):
+                R = repop.needs_refill(sizes)
+                if not R or sum(sizes) == 0:
+                    continue
+                caps = [repop.capacity(s_, m) if k not in R else 0 for k, s_ in enumerate(sizes)]
+                if sum(caps) >= len(R):
+                    continue
+                idx += 1
+                if idx % spec["parts"] != spec["part"]:
+                    continue
+                case = dict(what="shortage", sizes=list(sizes), m=m)
+                random.seed(idx % 7)
+                st = c08.build_state(list(sizes), m, [float(1 + (k * 7 + idx) % 3) for k in range(K)], np.random.default_rng([idx, 9]))
+                res.evaluations += 1
+                try:
+                    out = cm.repopulate_empty_clusters(st)
+                    res.violation("donor shortage (sizes %s, m=%d: capacity %d for %d under-populated clusters) returned a state with sizes %s "
+                                  "instead of raising" % (list(sizes), m, sum(caps), len(R), [c.size for c in out.clusters]), case)
+                except RuntimeError as e:
+                    if "donor" not in str(e).lower():
+                        res.violation("donor shortage raised a RuntimeError that does not name it: %s" % str(e)[:120], case)
+                except Exception as e:
+                    res.violation("donor shortage (sizes %s, m=%d) surfaced as %s(%s) instead of the RuntimeError naming it" % (
+                        list(sizes), m, type(e).__name__, str(e)[:80]), case)
+                res.count("shortage_states")
+                if sum(1 for c_ in caps if c_ > 0):
+                    res.count("shortage_states_with_partial_capacity")
+                    res.nontriv("shortage-%s-%d" % (sizes, m))
+    res.sample(dict(what="shortage grid", example=dict(sizes=[0, 0, 0, 7], m=2, capacity=2, recipients=3)))
+
+
 def run_nodonor(spec, res):
     rng = np.random.default_rng([spec["seed"], 202, spec["part"]])
     for j in range(spec["n"]):
@@ -432,11 +476,16 @@ def run_shard(spec, res):
         run_nodonor(spec, res)
     elif what == "initfaults":
         run_initfaults(spec, res)
+    elif what == "shortage":
+        run_shortage(spec, res)
     else:
         run_death(spec, res)
 
 
 def replay(case, res):
+    if case.get("what") == "shortage":
+        res.inconclusive.append("re-run ./check C20: the shortage grid is enumerated, sizes=%s m=%s" % (case.get("sizes"), case.get("m")))
+        return
     if case.get("what") == "frontends":
         run_frontends(dict(seed=0), res)
         return
@@ -466,7 +515,7 @@ def finalize(merged, tier):
     q = tier == "quick"
     c = merged["counters"]
     for key, least in (("faults_fired", 25 if q else 300), ("clean_calls_after_failure", 25 if q else 300), ("frontend_swaps", 9),
-                       ("init_faults_fired", 4 if q else 20),
+                       ("init_faults_fired", 4 if q else 20), ("shortage_states_with_partial_capacity", 200 if q else 2000),
                        ("nodonor_errors", 2 if q else 6)):
         if c.get(key, 0) < least:
             out["inconclusive"].append("monitor counter %s=%d below %d" % (key, c.get(key, 0), least))
